@@ -193,6 +193,7 @@ def required (client : String) : List String :=
   | "hbpub" => base ++ ["thread/join", "mutex/X->X", "cv/unlock->wake", "cv/wait-releases", "cv/notify-no-edge",
       "atomic/rel->acq", "atomic/rmw-chain->acq", "plain/read-after-write", "plain/write-after-write",
       "plain/write-after-read"]
+  | "tripwire" => base ++ ["thread/join", "atomic/rel->acq", "plain/read-after-write"]
   | _ => base
 
 /-- feed one HB event; `Except` carries the race report -/
